@@ -201,3 +201,18 @@ Proof.
   split; [vm_compute; reflexivity|]. split; [reflexivity|]. split; [reflexivity|].
   split; vm_compute; reflexivity.
 Qed.
+
+(* ---- the listing conjunct: it speaks about the two-layer world (listing succeeds there), and each
+   of its two preconditions is needed: after the rename that stopped half way (child b names a
+   parent that is gone) the listing is refused; so it is without the skeleton file *)
+Definition fs_noskel : fsT := filter (fun e => negb (beq (fst e) (pathjoin [c_base cfg0; D_SkeletonLayerconfigFile]))) fs0.
+Example listing_examples :
+  let after_fault := v_after (view_of_model cfg0 wld0 env_fail1 (CRename na nc) []) in
+  let w_noskel := MkWO fs_noskel ks0 in
+  ((C02.forest_ok cfg0 fs0, base_set_up cfg0 fs0, v_res (view_of_model cfg0 wld0 env_plain CProbe [])),
+   (C02.forest_ok cfg0 (wo_fs after_fault), base_set_up cfg0 (wo_fs after_fault),
+    v_res (view_of_model cfg0 after_fault env_plain CProbe [])),
+   (C02.forest_ok cfg0 fs_noskel, base_set_up cfg0 fs_noskel,
+    v_res (view_of_model cfg0 w_noskel env_plain CProbe [])))
+  = ((true, true, ROk), (false, true, RFail), (true, false, RFail)).
+Proof. vm_compute. reflexivity. Qed.
